@@ -19,10 +19,11 @@ func shortName(s string) string {
 }
 
 // callName returns the resolved name of the function a call instruction invokes:
-//   static:   "(*sync.Mutex).Lock", "time.Now", "(*vnet.Router).push", "vnet.newNAT"
-//   builtin:  "builtin.close"
-//   invoke:   "invoke (vnet.NIC).onInboundChunk"
-//   dynamic:  "dynamic" (call of a func value)
+//
+//	static:   "(*sync.Mutex).Lock", "time.Now", "(*vnet.Router).push", "vnet.newNAT"
+//	builtin:  "builtin.close"
+//	invoke:   "invoke (vnet.NIC).onInboundChunk"
+//	dynamic:  "dynamic" (call of a func value)
 func callName(ci ssa.CallInstruction) string {
 	c := ci.Common()
 	if c.IsInvoke() {
